@@ -16,6 +16,65 @@ READER_MOVES = ('next_token', 'move_to_token', 'move_past_token', 'move_to_pos_c
                 'skip_space_chars')
 
 
+def _optional_recovery_attributes(ctx, repo):
+    from .. import symex
+    em = repo.mod('pylatexenc.latexnodes._exctypes')
+    groups = {}          # attribute -> (class, set of attributes set by the same __init__)
+    for cn, c in em.classes.items():
+        init = em.methods(cn).get('__init__')
+        if init is None:
+            continue
+        attrs = {n.attr for n in ast.walk(init) if isinstance(n, ast.Attribute) and isinstance(n.ctx, ast.Store)
+                 and is_self_attr(n) and n.attr.startswith('recovery_')}
+        for a in attrs:
+            groups[a] = (cn.split('.')[-1], attrs)
+    if len(groups) < 4:
+        raise AnalysisError('recovery_* attribute definitions not found in _exctypes')
+    n = 0
+    for mod in sorted(repo.modules.values(), key=lambda m_: m_.name):
+        if mod is em or mod.name.endswith('__main__'):
+            continue
+        for q, f in sorted(mod.functions.items()):
+            reads = [x for x in iter_own(f) if isinstance(x, ast.Attribute) and isinstance(x.ctx, ast.Load)
+                     and x.attr in groups and not is_self_attr(x)]
+            if not reads:
+                continue
+            try:
+                cases = symex.Walker(is_sink=lambda x: any(x is r for r in reads),
+                                     sink_types=(ast.Attribute,)).run(f)
+            except symex.TooManyPaths as e:
+                ctx.unknown('R06h', mod, f, str(e), construct=q)
+                continue
+            by_node = {}
+            for cs in cases:
+                by_node.setdefault(id(cs.node), []).append(cs)
+            for r in reads:
+                n += 1
+                cls_, grp = groups[r.attr]
+                # inside `except <defining class> as v` with v the receiver?
+                in_handler = any(isinstance(p_, ast.ExceptHandler) and p_.name and p_.type is not None
+                                 and unparse(p_.type).split('.')[-1] == cls_ and unparse(r.value) == p_.name
+                                 for p_ in parents(r))
+                bad = None
+                for cs in by_node.get(id(r), []):
+                    recv = unparse(cs.sub.value)
+                    facts = symex.facts_of(cs.conds, cs.env)
+                    ok = any(p_ and t_.replace('"', "'") in ("hasattr(%s, '%s')" % (recv, a) for a in grp)
+                             for t_, p_ in facts)
+                    isinst = any(p_ and t_.startswith('isinstance(%s,' % recv) and cls_ in t_ for t_, p_ in facts)
+                    if not (ok or isinst or in_handler):
+                        bad = cs
+                cons = '%s: read of .%s' % (q, r.attr)
+                ctx.decide('R06h', bad is None, mod, enclosing_stmt(r) or r,
+                           '.%s read under hasattr/isinstance/handler of %s' % (r.attr, cls_),
+                           '%s is read on the path [%s] without a dominating hasattr() for an attribute of %s: '
+                           'an error of another class (a plain LatexWalkerParseError from the legacy verbatim '
+                           'parsers) has no such attribute -- AttributeError instead of recovery in tolerant mode'
+                           % (unparse(r), ' & '.join(bad.cond_src())[-100:] if bad else '', cls_), construct=cons)
+    if n < 4:
+        raise AnalysisError('only %d reads of recovery_* attributes found' % n)
+
+
 def _has_none_fallback(stmts, var, attr, helpers, depth=0):
     """do the statements give <var>.<attr> a value when it is None (inline, or through a helper
     function that receives var)"""
@@ -190,6 +249,10 @@ def run(ctx):
                      '(_TryAgainWithSkippedCommentOrWhitespaceNodes), the reader stands strictly after '
                      'the position it had when the attempt started (past the token, at the token after '
                      'non-empty leading whitespace, or at the recovery position of a token error)', 4)
+    ctx.rule('R06h', 'recovery information is optional: an attribute recovery_* is read from the caught '
+                     'exception only where hasattr() of an attribute set by the same constructor dominates, or '
+                     'inside a handler that catches exactly the class defining it (a plain LatexWalkerParseError '
+                     'has none of them: AttributeError in tolerant mode otherwise)', 4)
     ctx.rule('R06g', 'sibling exits agree: the general-nodes parser gives the collector\'s final node '
                      'list a position when it has none (empty list) on the error exit exactly as on the '
                      'normal exit; a recovery list without position makes the tolerant caller fail with '
@@ -429,6 +492,7 @@ def run(ctx):
     ctx.analysed['tolerance_check_calls'] = n_calls
     _retry_progress(ctx, repo)
     _nodelist_position_fallback(ctx, repo)
+    _optional_recovery_attributes(ctx, repo)
     ctx.assume('termination is decided only through token-level progress (R06b, C11 R11a); implicit '
                'exceptions only through the crash-construct rules')
     return 'other', (
